@@ -460,7 +460,8 @@ Safety == TypeOK /\ NoSplice /\ InOrder /\ NoSendAfterClose /\ ReadIsDelivered /
 (* liveness: the stream's output ends once it is cancelled / once the pipe's writers are gone *)
 WritersDone == \A w \in Writers : wst[w] \in {"idle", "closed", "failed"} /\ ~inflight[w].on
 EndsAfterCancel == cancelled ~> chanClosed
-FifoEndsAfterClose == (Fifo /\ WritersDone /\ landed[0] # <<>>) ~> chanClosed
+\* (if no writer ever comes back: a later writer may legitimately keep the pipe open for ever)
+FifoEndsAfterClose == <>[](Fifo /\ WritersDone /\ landed[0] # <<>>) => <>chanClosed
 \* without cancellation everything written is eventually delivered (tails included once the writer closed)
 DeliveredAll ==
   IF Fifo THEN LinesOnly(out) = Split(rd[0]) /\ (chanClosed \/ q[0] = <<>>)
